@@ -246,13 +246,7 @@ func GuardedBy(site ssa.Instruction, pred func(r Rel) bool) (bool, *Witness) {
 	w := Query{
 		Fn:     fn,
 		Target: func(in ssa.Instruction) bool { return in == site },
-		BarrierEdge: func(from, to *ssa.BasicBlock) bool {
-			c, t, ok := EdgeCond(from, to)
-			if !ok {
-				return false
-			}
-			return pred(Normalize(c, t))
-		},
+		BarrierEdge: func(from, to *ssa.BasicBlock) bool { return EdgeHolds(from, to, pred) },
 	}.Find()
 	return w == nil, w
 }
@@ -319,7 +313,7 @@ func GuardedByStable(site ssa.Instruction, pred func(r Rel) bool, kill func(ssa.
 		}
 		for _, s := range cur.b.Succs {
 			ng := g
-			if c, t, ok := EdgeCond(cur.b, s); ok && pred(Normalize(c, t)) {
+			if EdgeHolds(cur.b, s, pred) {
 				ng = true
 			}
 			n := st{s, ng}
